@@ -9,6 +9,7 @@ id=$P$M
 case "${WT:-/tmp/wt}" in
 /tmp/wt) ;;
 /tmp/wt4) case $M in A) id=${P}E;; B) id=${P}F;; esac;;
+/tmp/wt6) case $M in A) id=${P}G;; B) id=${P}H;; esac;;  # fifth round: the authors were given the harness design
 *) case $M in A) id=${P}C;; B) id=${P}D;; esac;;
 esac
 [ -f "$src/patch.diff" ] || { echo "$id: no patch"; exit 1; }
